@@ -14,6 +14,7 @@ package main
 // Correspondence: the Lean model's effect trace (GoawkModel.C12.trace) against the same observations, operation by operation.
 
 import (
+	"context"
 	"encoding/json"
 	"fmt"
 	"os"
@@ -39,15 +40,17 @@ type c12Op struct {
 
 // c12Cfg: the sandbox part of one Execute call's Config
 type c12Cfg struct {
-	NoExec   bool `json:"no_exec"`
-	NoWrites bool `json:"no_writes"`
-	NoReads  bool `json:"no_reads"`
-	Hook     bool `json:"hook"`
-	ShellOK  bool `json:"shell_ok"`
+	NoExec   bool   `json:"no_exec"`
+	NoWrites bool   `json:"no_writes"`
+	NoReads  bool   `json:"no_reads"`
+	Hook     bool   `json:"hook"`
+	ShellOK  bool   `json:"shell_ok"`
+	Entry    string `json:"entry,omitempty"` // the entry point this earlier call goes through (see c12Entries)
 }
 
 type c12Case struct {
 	Reuse    []c12Cfg `json:"reuse,omitempty"` // earlier Execute calls on the SAME Interpreter (same program), each with its own config
+	Entry    string   `json:"entry,omitempty"` // the public entry point the run under test goes through: "" = interp.New + Execute (see c12Entries)
 	NoExec   bool     `json:"no_exec"`
 	NoWrites bool     `json:"no_writes"`
 	NoReads  bool     `json:"no_reads"`
@@ -76,7 +79,9 @@ type c12Edit struct {
 func (cs *c12Case) ruleExits() bool { return cs.RuleEnd == "exit" || cs.RuleEnd == "exit2" }
 
 // hasRule: something happens while the first record is processed (operations, ARGV edits, exit / next / nextfile)
-func (cs *c12Case) hasRule() bool { return len(cs.Rule) > 0 || len(cs.ArgvRule) > 0 || cs.RuleEnd != "" }
+func (cs *c12Case) hasRule() bool {
+	return len(cs.Rule) > 0 || len(cs.ArgvRule) > 0 || cs.RuleEnd != ""
+}
 
 // modelled: the case is within what the Lean model expresses (correspondence is run on it)
 func (cs *c12Case) modelled() bool {
@@ -359,6 +364,100 @@ func c12List(d string) map[string]string {
 
 var c12ParseMu sync.Mutex
 
+// ---- entry points -------------------------------------------------------------------------------------------------------
+//
+// The property speaks of programs, not of one way of running them: every case can be sent through each public way of
+// executing a parsed program. "execute" (also spelled "") = Interpreter.Execute; "execprogram" = interp.ExecProgram (a fresh
+// interpreter, also when the case has earlier Execute calls); the ctx-* entries = Interpreter.ExecuteContext with
+// context.Background(), context.TODO(), and three contexts that stay live for the whole run: WithTimeout(1h), WithCancel
+// (cancelled only after the run has returned), WithValue (no deadline, no Done channel of its own).
+var c12Entries = []string{"execute", "execprogram", "ctx-background", "ctx-todo", "ctx-timeout", "ctx-cancel", "ctx-value"}
+
+type c12CtxKey struct{}
+
+func c12Exec(entry string, p *interp.Interpreter, prog *parser.Program, cfg *interp.Config) (int, error) {
+	switch entry {
+	case "", "execute":
+		return p.Execute(cfg)
+	case "execprogram":
+		return interp.ExecProgram(prog, cfg)
+	case "ctx-background":
+		return p.ExecuteContext(context.Background(), cfg)
+	case "ctx-todo":
+		return p.ExecuteContext(context.TODO(), cfg)
+	case "ctx-timeout":
+		ctx, cancel := context.WithTimeout(context.Background(), time.Hour)
+		defer cancel()
+		return p.ExecuteContext(ctx, cfg)
+	case "ctx-cancel":
+		ctx, cancel := context.WithCancel(context.Background())
+		defer cancel()
+		return p.ExecuteContext(ctx, cfg)
+	case "ctx-value":
+		return p.ExecuteContext(context.WithValue(context.Background(), c12CtxKey{}, 1), cfg)
+	case "ctx-done":
+		// a context that is already cancelled (stream main only, and only for cases that start no process): a refused
+		// operation still ends the run with an error — the context's. The context is looked at every 1000 instructions only,
+		// so the short harness programs are otherwise not cut off.
+		ctx, cancel := context.WithCancel(context.Background())
+		cancel()
+		return p.ExecuteContext(ctx, cfg)
+	}
+	panic("harness: unknown entry point " + entry)
+}
+
+func c12EntryName(e string) string {
+	if e == "" {
+		return "execute"
+	}
+	return e
+}
+
+// c12ModelEntry: the entry point as the Lean model knows it (GoawkModel.C12.Entry) and whether the context is done
+func c12ModelEntry(e string) (entry, done string) {
+	switch e {
+	case "", "execute":
+		return "execute", "0"
+	case "execprogram", "ctx-background", "ctx-todo":
+		return e, "0"
+	case "ctx-done":
+		return "ctx-other", "1"
+	}
+	return "ctx-other", "0"
+}
+
+func (cs *c12Case) startsProcess() bool {
+	for _, op := range cs.ops() {
+		if op.K == "pipe" || op.K == "sys" || op.K == "gc" {
+			return true
+		}
+	}
+	return false
+}
+
+// c12ExecFresh: one run on a fresh interpreter through the given entry point; panics of the code under test are recovered
+func c12ExecFresh(entry string, prog *parser.Program, cfg *interp.Config) (res vh.RunResult) {
+	if entry == "" || entry == "execprogram" {
+		return vh.ExecProg(prog, cfg) // interp.ExecProgram, with the run-away watchdog
+	}
+	defer func() {
+		if r := recover(); r != nil {
+			res.Panic = fmt.Sprint(r)
+		}
+	}()
+	p, err := interp.New(prog)
+	if err != nil {
+		res.Err = "interp.New: " + err.Error()
+		return res
+	}
+	status, err := c12Exec(entry, p, prog, cfg)
+	res.Status = status
+	if err != nil {
+		res.Err = err.Error()
+	}
+	return res
+}
+
 func c12Run(cs *c12Case) (obs c12Obs) {
 	d, err := os.MkdirTemp("", "c12_")
 	if err != nil {
@@ -450,7 +549,7 @@ func c12Run(cs *c12Case) (obs c12Obs) {
 		for k, c := range cs.Reuse {
 			current = k
 			in, _ := os.Open(d + "/stdin.txt")
-			p.Execute(mkCfg(k, c, in))
+			c12Exec(c.Entry, p, prog, mkCfg(k, c, in))
 			in.Close()
 			resetDir()
 		}
@@ -461,8 +560,8 @@ func c12Run(cs *c12Case) (obs c12Obs) {
 		out.reset()
 		errw.reset()
 		obs.Before = c12List(d)
-		cfg := mkCfg(len(cs.Reuse), c12Cfg{cs.NoExec, cs.NoWrites, cs.NoReads, cs.Hook, cs.ShellOK}, stdin)
-		_, err = p.Execute(cfg)
+		cfg := mkCfg(len(cs.Reuse), c12Cfg{NoExec: cs.NoExec, NoWrites: cs.NoWrites, NoReads: cs.NoReads, Hook: cs.Hook, ShellOK: cs.ShellOK}, stdin)
+		_, err = c12Exec(cs.Entry, p, prog, cfg)
 		if err != nil {
 			obs.Err = err.Error()
 		}
@@ -589,6 +688,8 @@ func c12ErrCode(msg string) string {
 		return "redirect"
 	case strings.Contains(msg, "no such file or directory"):
 		return "openFailed"
+	case msg == "context canceled":
+		return "ctxCanceled"
 	}
 	return "other:" + msg
 }
@@ -916,7 +1017,8 @@ func c12B(b bool) string {
 
 func c12LeanReq(cs *c12Case) string {
 	var b strings.Builder
-	fmt.Fprintf(&b, "run %s%s%s%s ", c12B(cs.NoExec), c12B(cs.NoWrites), c12B(cs.NoReads), c12B(cs.Hook))
+	me, done := c12ModelEntry(cs.Entry)
+	fmt.Fprintf(&b, "exec %s %s %s%s%s%s ", me, done, c12B(cs.NoExec), c12B(cs.NoWrites), c12B(cs.NoReads), c12B(cs.Hook))
 	ex := make([]string, len(c12InFiles))
 	for i, f := range c12InFiles {
 		ex[i] = vh.HxS(f)
@@ -958,6 +1060,19 @@ func c12Compare(cs *c12Case, obs *c12Obs, ans string) string {
 	}
 	var groups [][]string
 	body := strings.TrimSpace(strings.TrimPrefix(ans, "ok"))
+	outcome := ""
+	if i := strings.Index(body, "##"); i >= 0 { // executeAll's outcome: finished | failed:<code> | ctxfailed
+		outcome = strings.TrimSpace(body[i+2:])
+		body = strings.TrimSpace(body[:i])
+	}
+	switch {
+	case outcome == "finished" && obs.Err != "":
+		return fmt.Sprintf("model: executeAll reports success, real run ended with %q", obs.Err)
+	case outcome == "ctxfailed" && c12ErrCode(obs.Err) != "ctxCanceled":
+		return fmt.Sprintf("model: executeAll reports the (done) context's error, real run: err=%q", obs.Err)
+	case strings.HasPrefix(outcome, "failed:") && c12ErrCode(obs.Err) != outcome[7:]:
+		return fmt.Sprintf("model: executeAll reports %s, real run: err=%q", outcome, obs.Err)
+	}
 	if body != "" {
 		for _, g := range strings.Split(body, " | ") {
 			g = strings.TrimSpace(g)
@@ -1050,7 +1165,7 @@ func c12Compare(cs *c12Case, obs *c12Obs, ans string) string {
 			if failing != i {
 				return fmt.Sprintf("op %d (%s %q): model ends the run with %s, real run: failing=%d err=%q", i, op.K, op.N, errc, failing, obs.Err)
 			}
-			if got := c12ErrCode(obs.Err); got != errc {
+			if got := c12ErrCode(obs.Err); got != errc && outcome != "ctxfailed" {
 				return fmt.Sprintf("op %d: model error %s, real error %s (%q)", i, errc, got, obs.Err)
 			}
 		} else if !o.Done {
@@ -1324,6 +1439,9 @@ func c12Random(c *vh.Ctx) c12Case {
 	r := c.Rng
 	cs := c12Case{Hook: r.Intn(3) != 0, ShellOK: r.Intn(8) != 0}
 	c12Flags(&cs, r.Intn(8))
+	if r.Intn(5) >= 2 {
+		cs.Entry = c12Entries[r.Intn(len(c12Entries))]
+	}
 	pick := func(xs []string) string { return xs[r.Intn(len(xs))] }
 	// a small pool of names per case so that names collide across roles
 	fileWrite := []string{"o0", "o1", "in1", "o0", "o1", "nd/x", "", "-", "/dev/stdout", "/dev/stderr"}
@@ -1389,7 +1507,11 @@ func c12Random(c *vh.Ctx) c12Case {
 	}
 	for k, n := 0, []int{0, 0, 1, 1, 2}[r.Intn(5)]; k < n; k++ {
 		m := r.Intn(8)
-		cs.Reuse = append(cs.Reuse, c12Cfg{NoExec: m&1 != 0, NoWrites: m&2 != 0, NoReads: m&4 != 0, Hook: r.Intn(2) == 0, ShellOK: r.Intn(6) != 0})
+		rc := c12Cfg{NoExec: m&1 != 0, NoWrites: m&2 != 0, NoReads: m&4 != 0, Hook: r.Intn(2) == 0, ShellOK: r.Intn(6) != 0}
+		if r.Intn(2) == 0 {
+			rc.Entry = c12Entries[r.Intn(len(c12Entries))]
+		}
+		cs.Reuse = append(cs.Reuse, rc)
 	}
 	// phases, early exits, run-time operand edits (a third of the cases)
 	if r.Intn(3) == 0 {
@@ -1421,15 +1543,26 @@ func c12Random(c *vh.Ctx) c12Case {
 	for i, n := 0, r.Intn(4); i < n; i++ {
 		cs.Args = append(cs.Args, pick(operandPool))
 	}
+	if r.Intn(6) == 0 && !cs.startsProcess() {
+		cs.Entry = "ctx-done"
+	}
 	return cs
 }
 
 // ---- main ---------------------------------------------------------------------------------------------------------------
 
-func main() { vh.Main("C12", runC12) }
+func main() {
+	if dir := os.Getenv("C12_SPEC_CHILD"); dir != "" {
+		c12SpecChildMain(dir) // stream spec: this process is the "host" whose descriptors the interpreter must not touch
+		return
+	}
+	vh.Main("C12", runC12)
+}
 
 func runC12(c *vh.Ctx) {
-	c.Rule("a case = 0–2 earlier Execute calls on the same Interpreter with their own sandbox settings, then the run under test: " +
+	c.Rule("a case = 0–2 earlier Execute calls on the same Interpreter with their own sandbox settings, then the run under test, sent through " +
+		"one of seven public entry points (Interpreter.Execute, interp.ExecProgram, ExecuteContext with Background / TODO / a live WithTimeout / " +
+		"WithCancel / WithValue context): " +
 		"flags (8 combinations) x custom OpenFile present/absent x shell startable/not x ARGV operands x operations in BEGIN " +
 		"and END drawn from print >, print >>, print |, getline <, cmd | getline, system, un-redirected getline, close, fflush (and the " +
 		"pattern-action loop over the operands); names come from a small pool (new files, existing files, a missing file, an unwritable " +
@@ -1475,6 +1608,13 @@ func runC12(c *vh.Ctx) {
 			}
 			runC12Herm(c, &cs)
 			return
+		case "spec":
+			var cs c12SpecCase
+			if err := json.Unmarshal(raw, &cs); err != nil {
+				panic(err)
+			}
+			runC12Spec(c, &cs)
+			return
 		}
 		var direct c12Case
 		if err := json.Unmarshal(raw, &direct); err != nil {
@@ -1488,8 +1628,30 @@ func runC12(c *vh.Ctx) {
 		runC12Dash(c, nil)
 		t1 := time.Now()
 		runC12Herm(c, nil)
-		c.Note(fmt.Sprintf("wall: stream dash %.1fs, stream herm %.1fs", t1.Sub(t0).Seconds(), time.Since(t1).Seconds()))
+		t2 := time.Now()
+		runC12Spec(c, nil)
+		c.Note(fmt.Sprintf("wall: stream dash %.1fs, stream herm %.1fs, stream spec %.1fs", t1.Sub(t0).Seconds(), t2.Sub(t1).Seconds(), time.Since(t2).Seconds()))
 		cases = c12Corpus()
+		// every corpus case again through the other public entry points (quick: one of the six others per case, rotating so
+		// that each corpus block meets every entry; thorough: all six), and, for the entries that go through an Interpreter,
+		// half of them after an earlier permissive Execute on the same Interpreter
+		base := cases
+		for i := range base {
+			for k := 1; k < len(c12Entries); k++ {
+				if !c.Thorough() && k != 1+(i+i/6+i/24+i/48)%(len(c12Entries)-1) {
+					continue
+				}
+				cs := base[i]
+				cs.Entry = c12Entries[k]
+				if (i+k)%5 == 0 && !cs.startsProcess() {
+					cs.Entry = "ctx-done"
+				}
+				if len(cs.Reuse) == 0 && (i+k)%2 == 0 && cs.Entry != "execprogram" {
+					cs.Reuse = []c12Cfg{{Hook: !cs.Hook, ShellOK: true, Entry: c12Entries[(i+k/2)%len(c12Entries)]}}
+				}
+				cases = append(cases, cs)
+			}
+		}
 		nCorpus := len(cases)
 		for i, n := 0, c.N(500, 8000); i < n; i++ {
 			cases = append(cases, c12Random(c))
@@ -1573,6 +1735,10 @@ func runC12(c *vh.Ctx) {
 		c.Hit(fmt.Sprintf("flags:exec=%s,writes=%s,reads=%s", c12B(cs.NoExec), c12B(cs.NoWrites), c12B(cs.NoReads)))
 		c.Hit("hook:" + c12B(cs.Hook))
 		c.Hit(fmt.Sprintf("earlier-executes-on-same-interpreter:%d", len(cs.Reuse)))
+		c.Hit("entry:" + c12EntryName(cs.Entry))
+		if anyFlag {
+			c.Hit("entry-with-deny-flag:" + c12EntryName(cs.Entry))
+		}
 		if cs.ExitBegin != nil {
 			c.Hit("phase:exit-in-BEGIN-then-END")
 		}
